@@ -84,6 +84,72 @@ func registryHas(n string) bool {
 	return false
 }
 
+// prefixPair returns two members of n's family, both new to the process, the second a proper prefix
+// of the first (rsets2057 / rsets205, push4svqx / push4svq).
+func prefixPair(n string) (long, short string) {
+	freshCounter++
+	k := freshCounter
+	switch {
+	case strings.HasPrefix(n, "rsets"):
+		short = "rsets" + strconv.Itoa(200+k)
+		return short + "7", short
+	case strings.HasSuffix(n, "st"):
+		short = strings.TrimSuffix(n, "st") + "sw" + string(rune('a'+k%26)) + string(rune('a'+(k/26)%26))
+		return short + "x", short
+	}
+	return "", ""
+}
+
+// loadPrefixPair loads two files one after the other in this process: the dynamic opcode names of the
+// second are proper prefixes of names the first one registered.
+func loadPrefixPair(r *evid.Run, saved []byte, d persistMachine, ctx map[string]interface{}) bool {
+	t1, t2 := string(saved), string(saved)
+	pairs := map[string][2]string{}
+	for _, n := range d.Dom.Ops {
+		if l, s := prefixPair(n); l != "" && !registryHas(l) && !registryHas(s) {
+			pairs[n] = [2]string{l, s}
+			t1 = strings.ReplaceAll(t1, `"`+n+`"`, `"`+l+`"`)
+			t2 = strings.ReplaceAll(t2, `"`+n+`"`, `"`+s+`"`)
+		}
+	}
+	if len(pairs) == 0 {
+		return false
+	}
+	for step, text := range []string{t1, t2} {
+		bj := new(bondmachine.Bondmachine_json)
+		if err := json.Unmarshal([]byte(text), bj); err != nil {
+			r.Inconclusive("prefix-pair file does not parse: %v", err)
+			return false
+		}
+		var re *bondmachine.Bondmachine
+		var perr error
+		func() {
+			defer func() {
+				if e := recover(); e != nil {
+					perr = fmt.Errorf("panic: %v", e)
+				}
+			}()
+			re = bj.Dejsoner()
+			re.Init()
+		}()
+		ctx["file"], ctx["names"] = text, pairs
+		if perr != nil {
+			r.Violate("fresh-load-error", fmt.Sprintf("loading file %d of a pair whose opcode names are prefixes of each other fails: %v", step+1, perr), ctx)
+			return true
+		}
+		for di, dom := range re.Domains {
+			for oi, op := range dom.Op {
+				want := bj.Domains[di].Op[oi]
+				if op == nil || op.Op_get_name() != want {
+					r.Violate("fresh-load-drops-opcode", fmt.Sprintf("opcode %s of the file (a proper prefix of an opcode name loaded just before) is missing or wrong in the loaded machine", want), ctx)
+					return true
+				}
+			}
+		}
+	}
+	return true
+}
+
 // loadFresh plays the fresh loading process: the saved file mentions dynamic opcode names that the
 // registry of this process does not contain yet.
 func loadFresh(r *evid.Run, saved []byte, d persistMachine, ctx map[string]interface{}) (checked bool) {
@@ -482,6 +548,9 @@ func runC11(r *evid.Run) {
 				return nil
 			}
 			if loadFresh(r, saved, d, ctx) {
+				freshLoads++
+			}
+			if loadPrefixPair(r, saved, d, ctx) {
 				freshLoads++
 			}
 			return nil
